@@ -71,6 +71,9 @@ def corr_targets(cover, tier, key=None):
         seen.add(k); targets.append((cfg, f))
     return targets
 
+def changed_ids(changed, lid):
+    return set(lid(l) for ls in changed.values() for l in ls)
+
 def lemma_hash(l, idx, lib):
     """content hash of a generated lemma: its text with every function id replaced by the content hash of that definition's transitive closure
     (index.json `chash`), plus the hash of the library files it is checked against.  Equal hash = the same statement about the same definitions."""
@@ -112,23 +115,43 @@ def run(pid, tier, seed, idx, info, t0, files, notes, cover, hdr, per_fn, rule, 
             if not keep: del files[b]
     propdir = core.BUILD + '/props/' + pid
     nob, nd, failures, assum = core.prove_files(propdir, files, hdr=hdr, footer=footer)
+    undecided = []      # (lemma, why): lemmas that this run could not decide although the baseline had decided them (or never saw them)
+    def long_pass(lems, sub):
+        """attempt the given lemmas with the long per-lemma limit; returns the set of ids still deferred"""
+        nonlocal nob, nd, failures
+        before = len(core.DEFERRED); core.LEMMA_TIMEOUT[0] = long_limit
+        per = max(1, (len(lems) + 31) // 32); groups = {}
+        for k, l in enumerate(lems): groups.setdefault('%s_%03d' % (sub, k // per), []).append(l)
+        nob2, nd2, f2, a2 = core.prove_files(propdir + '_' + sub.lower(), groups, hdr=hdr, footer=footer)
+        nob += nob2; nd += nd2; failures += f2; assum.update(a2); core.LEMMA_TIMEOUT[0] = quick_limit if tier == 'quick' else long_limit
+        still = core.DEFERRED[before:]; del core.DEFERRED[before:]
+        return still
     if changed:      # a slow lemma whose statement or definitions changed since the baseline: decide it now, with the long limit
-        core.LEMMA_TIMEOUT[0] = long_limit
-        nob2, nd2, f2, a2 = core.prove_files(propdir + '_changed', {'Chg_' + b: ls for b, ls in changed.items()}, hdr=hdr, footer=footer)
-        nob += nob2; nd += nd2; failures += f2; assum.update(a2); core.LEMMA_TIMEOUT[0] = quick_limit
+        for l, why in long_pass([l for ls in changed.values() for l in ls], 'Chg'):
+            if slow.get(lid(l), {}).get('st') == 'proved': undecided.append((l, 'proved with the long limit when the baseline was recorded; its definitions changed and it is not decided within %d s now (%s)' % (long_limit, why)))
+            else: core.DEFERRED.append((l, why))
+    if not record:
+        # a lemma outside the recorded slow list that hit the limit: timing noise or a change that made it undecidable for the tactic.  Retry
+        # with the long limit; if it is still undecided the property is no longer shown for it -> reported (never silently dropped)
+        D = list(core.DEFERRED); del core.DEFERRED[:]
+        retry = [l for l, _ in D if tier == 'quick' and lid(l) not in changed_ids(changed, lid)]
+        keep = [(l, w) for l, w in D if not (tier == 'quick' and lid(l) not in changed_ids(changed, lid))]
+        still = long_pass(retry, 'Retry') if retry else []
+        for l, why in still + (keep if tier != 'quick' else []):
+            r = slow.get(lid(l))
+            if r is not None and r.get('st') != 'proved': core.DEFERRED.append((l, why))      # never decided, recorded as such
+            else: undecided.append((l, 'decided when the baseline was recorded (or new), not decided within %d s now (%s)' % (long_limit, why)))
+        if tier == 'quick': core.DEFERRED.extend(keep)
+    for l, why in undecided: failures.append((l, 'Error: ' + why))
     slow_out = None
     if record and tier == 'quick':
         # second pass over the lemmas deferred by the quick limit, with the long limit; the outcome is recorded with the content hash
         D = [l for l, _ in core.DEFERRED]; del core.DEFERRED[:]
         slow_out = {}
         if D:
-            core.LEMMA_TIMEOUT[0] = long_limit
-            per = max(1, (len(D) + 31) // 32); groups = {}
-            for k, l in enumerate(D): groups.setdefault('Slow_%03d' % (k // per), []).append(l)
-            nob2, nd2, f2, a2 = core.prove_files(propdir + '_slow', groups, hdr=hdr, footer=footer)
-            still = set(id(l) for l, _ in core.DEFERRED); failed = set(id(l) for l, _ in f2)
-            for l in D: slow_out[lid(l)] = {'h': h(l), 'st': 'deferred' if id(l) in still else 'failed' if id(l) in failed else 'proved'}
-            nob += nob2; nd += nd2; failures += f2; assum.update(a2); core.LEMMA_TIMEOUT[0] = quick_limit
+            nf0 = len(failures); still = long_pass(D, 'Slow'); core.DEFERRED.extend(still)
+            stillid = set(id(l) for l, _ in still); failed = set(id(l) for l, _ in failures[nf0:])
+            for l in D: slow_out[lid(l)] = {'h': h(l), 'st': 'deferred' if id(l) in stillid else 'failed' if id(l) in failed else 'proved'}
     npc = sum(1 for _, st in skipped if st == 'proved')
     notes['deferred_count'] = len(core.DEFERRED) + len(skipped) - npc; notes['deferred'] = ['%s (%s)' % (l.meta['key'], why) for l, why in core.DEFERRED][:60]
     notes['slow_lemmas_unchanged_since_baseline'] = {'proved_with_long_limit_when_recorded': npc, 'not_decided_when_recorded': len(skipped) - npc}
